@@ -107,5 +107,13 @@ func (w internalResponseWriter) Write(b []byte) (int, error) {
 	return w.ResponseWriterWrapper.Write(b)
 }
 
+// Flush ignores the call if the response should be redirected to an internal
+// location: nothing of that response is sent, its header included.
+func (w internalResponseWriter) Flush() {
+	if !isInternalRedirect(w) {
+		w.ResponseWriterWrapper.Flush()
+	}
+}
+
 // Interface guards
 var _ httpserver.HTTPInterfaces = internalResponseWriter{}
